@@ -79,7 +79,8 @@ def jval_sexpr(v):
 
 
 def runtime_token(rt):
-    return json.dumps(rt.total_seconds())
+    # a value that is not a timedelta is an observation (it will not compare equal to the original), not a crash
+    return json.dumps(rt.total_seconds()) if hasattr(rt, "total_seconds") else "?" + repr(rt)
 
 
 def memento_sexpr(m, deps=None, sort_deps=False):
@@ -94,7 +95,7 @@ def memento_sexpr(m, deps=None, sort_deps=False):
         ("~" if im.invocations is None else "( " + "".join(call_sexpr(c) + " " for c in im.invocations) + ")") + " " + \
         ("~" if im.resources is None else "( " + "".join("H %s %s %s " % (ostr(r.resource_type), ostr(r.url), ostr(r.version))
                                                           for r in im.resources) + ")") + " " + \
-        hx(runtime_token(im.runtime)) + " " + hx(im.result_type.name) + " ( " + "".join(d + " " for d in dl) + ") " + \
+        hx(runtime_token(im.runtime)) + " " + hx(getattr(im.result_type, "name", "?" + repr(im.result_type))) + " ( " + "".join(d + " " for d in dl) + ") " + \
         jval_sexpr(m.runner) + " " + ostr(m.correlation_id) + " " + ("~" if ck is None else "K %s %s" % (hx(ck.key), hx(ck.version)))
 
 
